@@ -85,6 +85,25 @@ def dump_real(decoded, layouts):
     return " ".join(parts)
 
 
+class Hang(BaseException):
+    """the call did not return within its deadline (BaseException: `except Exception` must not swallow it)"""
+
+
+def with_deadline(seconds, fn, *args):
+    import signal
+
+    def on_alarm(signum, frame):
+        raise Hang()
+
+    old = signal.signal(signal.SIGALRM, on_alarm)
+    signal.setitimer(signal.ITIMER_REAL, seconds)
+    try:
+        return fn(*args)
+    finally:
+        signal.setitimer(signal.ITIMER_REAL, 0)
+        signal.signal(signal.SIGALRM, old)
+
+
 def real_rt(data):
     """the real code's answer to the `rt` op"""
     ChkIo, _ = real_api()
@@ -227,8 +246,23 @@ def gen_known_payload(rng, name, layout):
     else:
         n = sz * rng.choice([0, 1, 1, 2, 3])
     if rng.random() < 0.3:
-        return sentinel_bytes(n, rng.randrange(1, 200))
-    return rand_bytes(rng, n)
+        p = sentinel_bytes(n, rng.randrange(1, 200))
+    else:
+        p = rand_bytes(rng, n)
+    if k == "trig" and n and rng.random() < 0.6:
+        # slots whose type byte is 0 but whose other bytes are not (left-over data behind the terminating
+        # entry, protected maps): conditions are 20 bytes (type byte at +15), actions 32 bytes (type byte at +26)
+        b = bytearray(p)
+        for t in range(n // sz):
+            base = t * sz
+            for c in range(16):
+                if rng.random() < 0.2:
+                    b[base + 20 * c + 15] = 0
+            for a in range(64):
+                if rng.random() < 0.2:
+                    b[base + 320 + 32 * a + 26] = 0
+        p = bytes(b)
+    return p
 
 
 def gen_wellformed(rng, layouts, registered):
@@ -284,8 +318,16 @@ def gen_malformed(rng, layouts, registered, fixture_bytes, n):
                 nm, p = chunks[-1]
                 body = refchk.join_chunks(chunks[:-1])
                 cases.append(("oversize", body + nm + struct.pack("<I", len(p) + rng.choice([1, 5, 1000, 2**31])) + p))
-            else:
+            elif m < 0.9:
                 cases.append(("tail", data + rand_bytes(rng, rng.randrange(1, 8))))
+            else:
+                # a size field with the top bit set (a "negative" size) on any chunk
+                k = rng.randrange(len(chunks))
+                parts = []
+                for j, (nm, p) in enumerate(chunks):
+                    size = len(p) if j != k else rng.choice([0xFFFFFFF8, 0xFFFFFFFC, 0xFFFFFFF0, 0x80000000, 0x80000000 | len(p), 0xFF000000 | len(p)])
+                    parts.append(nm + struct.pack("<I", size) + p)
+                cases.append(("negsize", b"".join(parts)))
         elif r < 0.75:
             # a recognised section that is too short / too long / has a bad string byte
             name = rng.choice(registered)
@@ -381,6 +423,13 @@ def run(prop, tier, seed, layouts_json_path):
             if small is not None:
                 for tag, data in fixture_boundary_truncations(small, 6 if tier == "quick" else 60):
                     cases.append((tag, data, False))
+                # a real map with the top byte of one size field set, and with a trailing "negative size" header
+                b = bytearray(small)
+                b[7] = 0xFF
+                cases.append(("fixture-negsize-first", bytes(b), False))
+                cases.append(("fixture-negsize-tail", small + b"JUNK" + struct.pack("<I", 0xFFFFFFF8), False))
+                cases.append(("fixture-negsize-back", small + b"JUNK" + struct.pack("<I", (1 << 32) - min(len(small), 1040)), False))
+        cases.append(("negsize-self", b"JUNK" + struct.pack("<I", 0xFFFFFFF8), False))
         for _ in range(40 * scale):
             data, _ = gen_wellformed(rng, layouts, registered)
             cases.append(("wellformed", data, True))
@@ -429,7 +478,12 @@ def run(prop, tier, seed, layouts_json_path):
 
     for i, (tag, data, wf) in enumerate(cases):
         out.case(tag.split(":")[0], data, sample={"tag": tag, "len": len(data), "hex": data[:48].hex()})
-        real_line, d, enc = real_rt(data)
+        try:
+            real_line, d, enc = with_deadline(20 + len(data) / 20000.0, real_rt, data)
+        except Hang:
+            out.count("real:HANG")
+            out.violations.append({"oracle": "decoding / re-encoding any byte string terminates", "tag": tag, "hex": data.hex() if len(data) < 100000 else None, "len": len(data), "got": "no result within the deadline"})
+            continue
         out.count("real:" + real_line.split(" ")[0] + (":" + real_line.split(" ")[1] if real_line[1] == "E" else ""))
         if model is not None:
             if model[2 * i] != real_line:
